@@ -16,6 +16,9 @@ mod interpret;
 #[cfg(test)]
 mod test;
 
+#[cfg(feature = "verif_hooks")]
+pub mod verif_hooks;
+
 #[derive(Debug)]
 pub struct Nfa {
     states: Vec<State>,
